@@ -31,10 +31,19 @@ class _Self(harness.StandIn):
     self.n += 1
     return self.ctx.real('%s%d' % (name, self.n), (d, d))
 
+  def g(self, A):
+    """the dissimilarity objective as an UNINTERPRETED function of the matrix entries (symbolic runs) / a fixed arbitrary function
+    (concrete runs): g(A_old) is then a well-defined quantity the loop may cache"""
+    d = np.shape(A)[0]
+    if self.ctx.symbolic:
+      import z3
+      f = z3.Function('gD_%d' % d, *([z3.RealSort()] * (d * d + 1)))
+      return core.Sym(f(*[core.term_of(A[i, j], True) for i in range(d) for j in range(d)]))
+    return np.float64(sum(np.sin(1.7 * (i + 1) * float(A[i // d, i % d]) + i) for i in range(d * d)))
+
   def _fD(self, neg_pairs, A):
-    self.n += 1
-    v = self.ctx.real('fD%d' % self.n)
-    self.fD_calls.append((A, v))
+    v = self.g(A)
+    self.fD_calls.append((np.array(A, dtype=object if self.ctx.symbolic else float, copy=True), v))
     return v
 
   def _fD1(self, neg_pairs, A):
@@ -135,8 +144,12 @@ def cycle_case(d, max_proj, stale_satisfy, eigh_mode='contract'):
       # a variable the body reads from an earlier cycle: arbitrary (that is what "arbitrary state" means)
       if p == 'satisfy':
         kw[p] = bool(int(ctx.integer('stale_satisfy', 0, 1)))
+      elif p in ('obj_previous', 'obj_old', 'obj_kept'):
+        # a cached objective of the kept iterate: the state invariant is that it IS g(A_old) (checked again on the post-state below)
+        kw[p] = s.g(A_old_in)
       else:
         ctx.mismatch('sliced step: unexpected free variable %s' % p)
+    g_old_in = s.g(A_old)
     try:
       out = step(**{k: kw[k] for k in params})
     finally:
@@ -169,10 +182,13 @@ def cycle_case(d, max_proj, stale_satisfy, eigh_mode='contract'):
     else:
       ctx.require('kept_iterate_psd', ctx.ge(q, 0, tol=1e-9))
     # the kept iterate changes only after a successful projection that improved the objective (or at cycle 0)
-    if s.fD_calls and len(s.fD_calls) >= 2:
-      obj_prev, obj = s.fD_calls[0][1], s.fD_calls[1][1]
-      ctx.require('kept_iterate_changes_only_on_improvement',
-                  ctx.implies(changed, ctx.or_(ctx.gt(obj, obj_prev), ctx.cond(cyc == 0))))
+    # the kept iterate is replaced only by a matrix whose objective was evaluated in this cycle and found larger than g(old kept iterate)
+    ctx.require('kept_iterate_changes_only_on_improvement',
+                ctx.implies(changed, ctx.or_(ctx.cond(cyc == 0),
+                                             *[ctx.and_(ctx.all_eq(Ao, Ac, tol=0.0), ctx.gt(vc, g_old_in)) for (Ac, vc) in s.fD_calls])))
+    for p in extra:
+      if p in ('obj_previous', 'obj_old', 'obj_kept') and p in out:
+        ctx.require('cached_objective_is_that_of_the_kept_iterate', ctx.eq(out[p], s.g(Ao), tol=0.0))
     ctx.require('step_size_stays_positive', ctx.gt(out['alpha'], 0))
     del budget
   return fn
